@@ -244,7 +244,9 @@ func refBadfiltered(r *rules.NetworkRule, cands []*rules.NetworkRule, keys map[*
 func genC02(t *rapid.T) c02Case {
 	nl := rapid.IntRange(1, 3).Draw(t, "nlists")
 	c := c02Case{IDs: genListIDs(t, nl)}
-	hostsU := []string{"example.org", "www.example.org", "google.com", "a.com", "1.2.3.4", "notexample.org", "sub.example.org", "реклама.example", "счётчик.example", "abc.de", "track.track.example.net", "ab.cd.ab.cd", "ad-server.example.org", "ad_server.example.org", "example.org.evil.example", "example.organic.example", "abc.de.x.example", "trk.example.com", "adserver.example.com", "ads.example.com", "banner.example.net", zeroHashNames[0], zeroHashNames[1]} // the last two hash to 0
+	hostsU := []string{"example.org", "www.example.org", "google.com", "a.com", "1.2.3.4", "notexample.org", "sub.example.org", "реклама.example", "счётчик.example", "abc.de", "track.track.example.net", "ab.cd.ab.cd", "ad-server.example.org", "ad_server.example.org", "example.org.evil.example", "example.organic.example", "abc.de.x.example", "trk.example.com", "adserver.example.com", "ads.example.com", "banner.example.net", zeroHashNames[0], zeroHashNames[1], // these two hash to 0
+		// a name of exactly 253 bytes, the longest a domain name can be (labels stay below 64)
+		strings.Repeat("d", 63) + "." + strings.Repeat("e", 63) + "." + strings.Repeat("f", 63) + "." + strings.Repeat("g", 57) + ".com"}
 	for _, cp := range hostColliders[:3] {
 		hostsU = append(hostsU, cp[0], cp[1])
 	}
@@ -323,6 +325,17 @@ func genC02(t *rapid.T) c02Case {
 			// the same rule with $badfilter
 			tw := m
 			tw.Extra = append(append([]string{}, m.Extra...), "badfilter")
+			// a subnet is the same subnet whatever host bits its spelling carries
+			respell := map[string]string{"192.168.1.0/24": "192.168.1.77/24", "192.168.1.77/24": "192.168.1.0/24", "10.0.0.0/8": "10.0.0.1/8", "10.0.0.1/8": "10.0.0.0/8"}
+			for _, cl := range []*[]Cli{&tw.CPerm, &tw.CRestr} {
+				cp := append([]Cli{}, *cl...)
+				for i, x := range cp {
+					if alt, ok := respell[x.Val]; ok && x.Kind == "cidr" {
+						cp[i].Val = alt
+					}
+				}
+				*cl = cp
+			}
 			if !inList("badfilter", m.Extra) {
 				c.Entries = append(c.Entries, c02Entry{Text: renderNet(t, tw), Model: &tw, List: rapid.IntRange(0, nl-1).Draw(t, "twin-list")})
 			}
